@@ -1386,7 +1386,11 @@ class TypeSystemDeserializer:
                     raise ValueError(msg.format(type_name, t.supertype, pt.supertype))
 
                 # We check whether the predefined type is defined the same in UIMA and this typesystem
-                if t_features == pt_features:
+                # `Feature.__eq__` does not look at multipleReferencesAllowed, so it is compared here
+                def multi_refs(fs):
+                    return [bool(f.multipleReferencesAllowed) for f in fs]
+
+                if t_features == pt_features and multi_refs(t_features) == multi_refs(pt_features):
                     # No need to create predefined types, but store them for serialization
                     ts._defines_predefined_type(type_name)
                     continue
